@@ -156,6 +156,7 @@ class TWorld:
             if len(self.h_calls) > self.fault_after and ex.ctx.choose(2, "nan-surfaces-as-LinAlgError") == 1:
                 self.h_faults.append(i)
                 self.raise_error(ex, "LinAlgError", "Array is not finite.")
+            self.nan_returned = getattr(self, "nan_returned", 0) + 1
             return float("nan")
         return H(i)
 
@@ -599,6 +600,15 @@ def build_tree(run, it):
             return
         i1 = s + d
         dn = lift(stats["n_step"]) - N0
+        if getattr(w, "nan_returned", 0) or w.h_faults:
+            # the Hamiltonian of the new state is NaN (returned as NaN, or surfaced as LinAlgError from a library matrix constructor): the state must not enter
+            # the tree -- the trajectory ends there and the transition reports a divergence, exactly as for an infinite Hamiltonian
+            ok = tree is None and term is True and prop is None and stats["diverging"] is True
+            ctx.run.ob(tag + "/base/nan-hamiltonian-ends-the-trajectory-as-a-divergence" + c, core.DISCHARGED if ok else core.FAILED, "pyvc",
+                       detail="" if ok else f"tree {'kept' if tree is not None else 'dropped'}, terminate={term}, diverging={stats['diverging']}",
+                       text="h(new state) NaN  ==>  _build_tree returns (True, None, None) and stats['diverging'] is set")
+            if tree is not None:
+                return
         if tree is None:
             ok = term is True and prop is None
             ctx.run.ob(tag + "/base/abort-returns-terminate-without-tree" + c, core.DISCHARGED if ok else core.FAILED, "pyvc", detail="" if ok else f"{term}, {prop}")
